@@ -28,7 +28,7 @@ ASSUMPTIONS = [
   "tolerances (>= 10x the largest error seen over 5 seeds): J qvel 5e-6 of sum|J||v| (+2.5e-7); jac 1e-5 of max(1,|J|); ten_J 2e-5, moment 5e-5 (vs FD 3e-5 / 1e-4); dense-vs-sparse J 1e-5, vel/aref/pos/D 1e-4 relative, qacc/efc.force/next state 3e-3 and qfrc_constraint 2e-2 of the field scale (thorough tier saw 7e-3), only when both solvers converged, cond(M + J'DJ) <= 1e4 in the float64 reference and at least one build is within 1e-3 of MuJoCo's float64 qacc (put_model clamps opt.tolerance to >= 1e-6, so the two solvers agree to ~2e-4 at best)",
   "slider-crank actuators near their singular configuration are skipped (as in C03); body (adhesion) transmissions are not generated (their moment depends on the contact set: C03/C04)",
 ]
-BUDGET = {"quick": dict(examples=400, seconds=150, workers=16), "thorough": dict(examples=10000, seconds=1500, workers=16)}
+BUDGET = {"quick": dict(examples=400, seconds=420, workers=16), "thorough": dict(examples=10000, seconds=1500, workers=16)}
 _CONTACT_TYPES = (5, 6, 7)
 _TRN = {0: "joint", 1: "jointinparent", 2: "slidercrank", 3: "tendon", 4: "site", 5: "body"}
 
